@@ -60,26 +60,97 @@ impl Serializer for FieldRec {
     fn serialize_u32(self, v: u32) -> Result<Prim, E> {
         Ok(Prim::U32(v))
     }
-    fother!(serialize_bool(bool), serialize_i8(i8), serialize_i16(i16), serialize_i32(i32), serialize_i64(i64), serialize_u8(u8), serialize_u16(u16), serialize_f32(f32), serialize_f64(f64), serialize_char(char), serialize_str(&str), serialize_bytes(&[u8]));
-    fn serialize_none(self) -> Result<Prim, E> { Ok(Prim::Other) }
-    fn serialize_some<T: ?Sized + ser::Serialize>(self, _: &T) -> Result<Prim, E> { Ok(Prim::Other) }
-    fn serialize_unit(self) -> Result<Prim, E> { Ok(Prim::Other) }
-    fn serialize_unit_struct(self, _: &'static str) -> Result<Prim, E> { Ok(Prim::Other) }
-    fn serialize_unit_variant(self, _: &'static str, _: u32, _: &'static str) -> Result<Prim, E> { Ok(Prim::Other) }
-    fn serialize_newtype_struct<T: ?Sized + ser::Serialize>(self, _: &'static str, _: &T) -> Result<Prim, E> { Ok(Prim::Other) }
-    fn serialize_newtype_variant<T: ?Sized + ser::Serialize>(self, _: &'static str, _: u32, _: &'static str, _: &T) -> Result<Prim, E> { Ok(Prim::Other) }
-    fn serialize_seq(self, _: Option<usize>) -> Result<Self::SerializeSeq, E> { Err(E) }
-    fn serialize_tuple(self, _: usize) -> Result<Self::SerializeTuple, E> { Err(E) }
-    fn serialize_tuple_struct(self, _: &'static str, _: usize) -> Result<Self::SerializeTupleStruct, E> { Err(E) }
-    fn serialize_tuple_variant(self, _: &'static str, _: u32, _: &'static str, _: usize) -> Result<Self::SerializeTupleVariant, E> { Err(E) }
-    fn serialize_map(self, _: Option<usize>) -> Result<Self::SerializeMap, E> { Err(E) }
-    fn serialize_struct(self, _: &'static str, _: usize) -> Result<Self::SerializeStruct, E> { Err(E) }
-    fn serialize_struct_variant(self, _: &'static str, _: u32, _: &'static str, _: usize) -> Result<Self::SerializeStructVariant, E> { Err(E) }
+    fother!(
+        serialize_bool(bool),
+        serialize_i8(i8),
+        serialize_i16(i16),
+        serialize_i32(i32),
+        serialize_i64(i64),
+        serialize_u8(u8),
+        serialize_u16(u16),
+        serialize_f32(f32),
+        serialize_f64(f64),
+        serialize_char(char),
+        serialize_str(&str),
+        serialize_bytes(&[u8])
+    );
+    fn serialize_none(self) -> Result<Prim, E> {
+        Ok(Prim::Other)
+    }
+    fn serialize_some<T: ?Sized + ser::Serialize>(self, _: &T) -> Result<Prim, E> {
+        Ok(Prim::Other)
+    }
+    fn serialize_unit(self) -> Result<Prim, E> {
+        Ok(Prim::Other)
+    }
+    fn serialize_unit_struct(self, _: &'static str) -> Result<Prim, E> {
+        Ok(Prim::Other)
+    }
+    fn serialize_unit_variant(self, _: &'static str, _: u32, _: &'static str) -> Result<Prim, E> {
+        Ok(Prim::Other)
+    }
+    fn serialize_newtype_struct<T: ?Sized + ser::Serialize>(
+        self,
+        _: &'static str,
+        _: &T,
+    ) -> Result<Prim, E> {
+        Ok(Prim::Other)
+    }
+    fn serialize_newtype_variant<T: ?Sized + ser::Serialize>(
+        self,
+        _: &'static str,
+        _: u32,
+        _: &'static str,
+        _: &T,
+    ) -> Result<Prim, E> {
+        Ok(Prim::Other)
+    }
+    fn serialize_seq(self, _: Option<usize>) -> Result<Self::SerializeSeq, E> {
+        Err(E)
+    }
+    fn serialize_tuple(self, _: usize) -> Result<Self::SerializeTuple, E> {
+        Err(E)
+    }
+    fn serialize_tuple_struct(
+        self,
+        _: &'static str,
+        _: usize,
+    ) -> Result<Self::SerializeTupleStruct, E> {
+        Err(E)
+    }
+    fn serialize_tuple_variant(
+        self,
+        _: &'static str,
+        _: u32,
+        _: &'static str,
+        _: usize,
+    ) -> Result<Self::SerializeTupleVariant, E> {
+        Err(E)
+    }
+    fn serialize_map(self, _: Option<usize>) -> Result<Self::SerializeMap, E> {
+        Err(E)
+    }
+    fn serialize_struct(self, _: &'static str, _: usize) -> Result<Self::SerializeStruct, E> {
+        Err(E)
+    }
+    fn serialize_struct_variant(
+        self,
+        _: &'static str,
+        _: u32,
+        _: &'static str,
+        _: usize,
+    ) -> Result<Self::SerializeStructVariant, E> {
+        Err(E)
+    }
 }
 impl SerializeStruct for RecFields {
     type Ok = Written;
     type Error = E;
-    fn serialize_field<T: ?Sized + ser::Serialize>(&mut self, key: &'static str, value: &T) -> Result<(), E> {
+    fn serialize_field<T: ?Sized + ser::Serialize>(
+        &mut self,
+        key: &'static str,
+        value: &T,
+    ) -> Result<(), E> {
         let p = value.serialize(FieldRec)?;
         let is_secs = key.len() == 4; // "secs" vs "nanos": compared by length to keep CBMC off string loops
         match (is_secs, p) {
@@ -104,37 +175,124 @@ impl Serializer for RecDur {
     type SerializeMap = Impossible<Written, E>;
     type SerializeStruct = RecFields;
     type SerializeStructVariant = Impossible<Written, E>;
-    dother!(serialize_bool(bool), serialize_i8(i8), serialize_i16(i16), serialize_i32(i32), serialize_i64(i64), serialize_u8(u8), serialize_u16(u16), serialize_u32(u32), serialize_u64(u64), serialize_f32(f32), serialize_f64(f64), serialize_char(char), serialize_str(&str), serialize_bytes(&[u8]));
-    fn serialize_none(self) -> Result<Written, E> { Err(E) }
-    fn serialize_some<T: ?Sized + ser::Serialize>(self, _: &T) -> Result<Written, E> { Err(E) }
-    fn serialize_unit(self) -> Result<Written, E> { Err(E) }
-    fn serialize_unit_struct(self, _: &'static str) -> Result<Written, E> { Err(E) }
-    fn serialize_unit_variant(self, _: &'static str, _: u32, _: &'static str) -> Result<Written, E> { Err(E) }
-    fn serialize_newtype_struct<T: ?Sized + ser::Serialize>(self, _: &'static str, _: &T) -> Result<Written, E> { Err(E) }
-    fn serialize_newtype_variant<T: ?Sized + ser::Serialize>(self, _: &'static str, _: u32, _: &'static str, _: &T) -> Result<Written, E> { Err(E) }
-    fn serialize_seq(self, _: Option<usize>) -> Result<Self::SerializeSeq, E> { Err(E) }
-    fn serialize_tuple(self, _: usize) -> Result<Self::SerializeTuple, E> { Err(E) }
-    fn serialize_tuple_struct(self, _: &'static str, _: usize) -> Result<Self::SerializeTupleStruct, E> { Err(E) }
-    fn serialize_tuple_variant(self, _: &'static str, _: u32, _: &'static str, _: usize) -> Result<Self::SerializeTupleVariant, E> { Err(E) }
-    fn serialize_map(self, _: Option<usize>) -> Result<Self::SerializeMap, E> { Err(E) }
-    fn serialize_struct(self, _: &'static str, _: usize) -> Result<RecFields, E> {
-        Ok(RecFields(Written { secs: None, nanos: None, other: false }))
+    dother!(
+        serialize_bool(bool),
+        serialize_i8(i8),
+        serialize_i16(i16),
+        serialize_i32(i32),
+        serialize_i64(i64),
+        serialize_u8(u8),
+        serialize_u16(u16),
+        serialize_u32(u32),
+        serialize_u64(u64),
+        serialize_f32(f32),
+        serialize_f64(f64),
+        serialize_char(char),
+        serialize_str(&str),
+        serialize_bytes(&[u8])
+    );
+    fn serialize_none(self) -> Result<Written, E> {
+        Err(E)
     }
-    fn serialize_struct_variant(self, _: &'static str, _: u32, _: &'static str, _: usize) -> Result<Self::SerializeStructVariant, E> { Err(E) }
+    fn serialize_some<T: ?Sized + ser::Serialize>(self, _: &T) -> Result<Written, E> {
+        Err(E)
+    }
+    fn serialize_unit(self) -> Result<Written, E> {
+        Err(E)
+    }
+    fn serialize_unit_struct(self, _: &'static str) -> Result<Written, E> {
+        Err(E)
+    }
+    fn serialize_unit_variant(
+        self,
+        _: &'static str,
+        _: u32,
+        _: &'static str,
+    ) -> Result<Written, E> {
+        Err(E)
+    }
+    fn serialize_newtype_struct<T: ?Sized + ser::Serialize>(
+        self,
+        _: &'static str,
+        _: &T,
+    ) -> Result<Written, E> {
+        Err(E)
+    }
+    fn serialize_newtype_variant<T: ?Sized + ser::Serialize>(
+        self,
+        _: &'static str,
+        _: u32,
+        _: &'static str,
+        _: &T,
+    ) -> Result<Written, E> {
+        Err(E)
+    }
+    fn serialize_seq(self, _: Option<usize>) -> Result<Self::SerializeSeq, E> {
+        Err(E)
+    }
+    fn serialize_tuple(self, _: usize) -> Result<Self::SerializeTuple, E> {
+        Err(E)
+    }
+    fn serialize_tuple_struct(
+        self,
+        _: &'static str,
+        _: usize,
+    ) -> Result<Self::SerializeTupleStruct, E> {
+        Err(E)
+    }
+    fn serialize_tuple_variant(
+        self,
+        _: &'static str,
+        _: u32,
+        _: &'static str,
+        _: usize,
+    ) -> Result<Self::SerializeTupleVariant, E> {
+        Err(E)
+    }
+    fn serialize_map(self, _: Option<usize>) -> Result<Self::SerializeMap, E> {
+        Err(E)
+    }
+    fn serialize_struct(self, _: &'static str, _: usize) -> Result<RecFields, E> {
+        Ok(RecFields(Written {
+            secs: None,
+            nanos: None,
+            other: false,
+        }))
+    }
+    fn serialize_struct_variant(
+        self,
+        _: &'static str,
+        _: u32,
+        _: &'static str,
+        _: usize,
+    ) -> Result<Self::SerializeStructVariant, E> {
+        Err(E)
+    }
 }
 
 /// Deserializer handing over one Duration the way a binary codec does: as the sequence
 /// (secs: u64, nanos: u32).
 pub struct DeDur(pub u64, pub u32);
-struct Seq2 { secs: u64, nanos: u32, i: u8 }
+struct Seq2 {
+    secs: u64,
+    nanos: u32,
+    i: u8,
+}
 impl<'de> SeqAccess<'de> for Seq2 {
     type Error = E;
-    fn next_element_seed<T: DeserializeSeed<'de>>(&mut self, seed: T) -> Result<Option<T::Value>, E> {
+    fn next_element_seed<T: DeserializeSeed<'de>>(
+        &mut self,
+        seed: T,
+    ) -> Result<Option<T::Value>, E> {
         use serde::de::IntoDeserializer;
         self.i += 1;
         match self.i {
-            1 => seed.deserialize(IntoDeserializer::<E>::into_deserializer(self.secs)).map(Some),
-            2 => seed.deserialize(IntoDeserializer::<E>::into_deserializer(self.nanos)).map(Some),
+            1 => seed
+                .deserialize(IntoDeserializer::<E>::into_deserializer(self.secs))
+                .map(Some),
+            2 => seed
+                .deserialize(IntoDeserializer::<E>::into_deserializer(self.nanos))
+                .map(Some),
             _ => Ok(None),
         }
     }
@@ -142,7 +300,11 @@ impl<'de> SeqAccess<'de> for Seq2 {
 impl<'de> Deserializer<'de> for DeDur {
     type Error = E;
     fn deserialize_any<V: Visitor<'de>>(self, v: V) -> Result<V::Value, E> {
-        v.visit_seq(Seq2 { secs: self.0, nanos: self.1, i: 0 })
+        v.visit_seq(Seq2 {
+            secs: self.0,
+            nanos: self.1,
+            i: 0,
+        })
     }
     serde::forward_to_deserialize_any! {
         bool i8 i16 i32 i64 i128 u8 u16 u32 u64 u128 f32 f64 char str string bytes byte_buf option unit
@@ -161,10 +323,16 @@ fn k2_deadline_written_as_remaining_time() {
     set_now(now1);
     let w = codec::serialize(&d, RecDur).unwrap();
     kani::cover!(gt(d, now1), "reachable: future deadline");
-    assert!(!w.other && w.secs.is_some() && w.nanos.is_some(), "C07: written as Duration (secs: u64, nanos: u32)");
+    assert!(
+        !w.other && w.secs.is_some() && w.nanos.is_some(),
+        "C07: written as Duration (secs: u64, nanos: u32)"
+    );
     let wrote = (w.secs.unwrap(), w.nanos.unwrap());
     let expect = if ge(d, now1) { diff(d, now1) } else { (0, 0) };
-    assert!(wrote == expect, "C07: written duration == deadline - now (saturating)");
+    assert!(
+        wrote == expect,
+        "C07: written duration == deadline - now (saturating)"
+    );
 }
 
 /// C16 + C07: decoding is total -- any (secs, nanos) a peer sends yields a deadline, never a
@@ -178,11 +346,20 @@ fn k2_deadline_decode_total_and_shifted() {
     let secs: u64 = kani::any();
     let nanos: u32 = kani::any();
     let r = codec::deserialize(DeDur(secs, nanos));
-    kani::cover!(r.is_ok() && secs > (1u64 << 62), "reachable: huge duration decodes");
+    kani::cover!(
+        r.is_ok() && secs > (1u64 << 62),
+        "reachable: huge duration decodes"
+    );
     if let Ok(deadline) = r {
-        assert!(ge(deadline, now2), "C07: decoded deadline is never earlier than now");
+        assert!(
+            ge(deadline, now2),
+            "C07: decoded deadline is never earlier than now"
+        );
         if secs < (1u64 << 41) && nanos < 1_000_000_000 {
-            assert!(instant_parts(deadline) == plus(now2, (secs, nanos)), "C07: decoded deadline == now + duration");
+            assert!(
+                instant_parts(deadline) == plus(now2, (secs, nanos)),
+                "C07: decoded deadline == now + duration"
+            );
         }
     }
 }
@@ -204,9 +381,15 @@ fn k2_deadline_shift_law() {
     kani::cover!(gt(d, now1) && gt(now2, now1), "reachable");
     if ge(d, now1) {
         assert!(ge(d2, d), "C07: never earlier than the caller's deadline");
-        assert!(diff(d2, d) == diff(now2, now1), "C07: shifted by exactly the transit time");
+        assert!(
+            diff(d2, d) == diff(now2, now1),
+            "C07: shifted by exactly the transit time"
+        );
     } else {
-        assert!(instant_parts(d2) == instant_parts(now2), "C07: a passed deadline arrives as now");
+        assert!(
+            instant_parts(d2) == instant_parts(now2),
+            "C07: a passed deadline arrives as now"
+        );
     }
 }
 
@@ -218,5 +401,8 @@ fn k2_default_deadline_ten_seconds() {
     let now = any_instant();
     set_now(now);
     let d = ten_seconds_from_now();
-    assert!(instant_parts(d) == plus(now, (10, 0)), "C07: documented 10 s default");
+    assert!(
+        instant_parts(d) == plus(now, (10, 0)),
+        "C07: documented 10 s default"
+    );
 }
